@@ -30,19 +30,29 @@ def sizeClause (persistent : Bool) (cap size unfinishedSum : Int) (noneUnfinishe
   decide (0 ≤ size) && decide (size ≤ cap) &&
   (if persistent then decide (size ≤ unfinishedSum) && (!noneUnfinished || size == 0) else size == unfinishedSum)
 
-/-- what an Offer of size `el` must return at once, given the size reported before it: the refusal rule -/
-def expectedRefusal (persistent block : Bool) (cap sizeBefore el : Int) : String :=
+/-- size clause for a persistent queue restarted on non-empty storage (`C02_persistent_size_any_start`): never negative,
+never above max(capacity, restored size); whenever nothing is queued at most the summed size of what is in flight, hence
+0 when nothing is unfinished.  (`size ≤ capacity` and `size ≤ Σ unfinished` are NOT promised before the queue has been
+read empty once: the snapshot may be stale, the capacity may have been lowered.) -/
+def sizeClauseRestart (cap restored size inflightSum : Int) (queuedNone noneUnfinished : Bool) : Bool :=
+  decide (0 ≤ size) && (decide (size ≤ cap) || decide (size ≤ restored)) &&
+  (!queuedNone || decide (size ≤ inflightSum)) && (!noneUnfinished || size == 0)
+
+/-- what an Offer of size `el` must return at once, given the size reported before it and whether `Shutdown` has been
+called: the refusal rule (memory queue: the stopped guard sits after the overflow test) -/
+def expectedRefusal (persistent block stopped : Bool) (cap sizeBefore el : Int) : String :=
   if persistent then
     if sizeBefore + el > cap then (if !block then "full" else if el > cap then "big" else "") else ""
   else
     if el == 0 then "" else if el < 0 then "inv" else if el > cap then "big"
-    else if sizeBefore + el > cap then (if !block then "full" else "") else ""
+    else if sizeBefore + el > cap then (if !block then "full" else "")
+    else if stopped then "stopped" else ""
 
 /-- refusal clause: the Offer returned exactly the refusal the rule prescribes ("" = no refusal: `st` is not one
-of full/inv/big) -/
-def refusalClause (persistent block : Bool) (cap sizeBefore el : Int) (st : String) : Bool :=
-  let want := expectedRefusal persistent block cap sizeBefore el
-  if want == "" then !(st == "full" || st == "inv" || st == "big") else st == want
+of full/inv/big/stopped) -/
+def refusalClause (persistent block stopped : Bool) (cap sizeBefore el : Int) (st : String) : Bool :=
+  let want := expectedRefusal persistent block stopped cap sizeBefore el
+  if want == "" then !(st == "full" || st == "inv" || st == "big" || st == "stopped") else st == want
 
 /-- blocked-while-empty clause: `blockedForSpace` producers exist only while something is unfinished
 (memory: reported size > 0) -/
@@ -70,6 +80,8 @@ structure Mon where
   block : Bool := false
   wfr : Bool := false
   persistent : Bool := false
+  stopped : Bool := false      -- `Shutdown` has been called (the property speaks about a running queue)
+  restored : Option Int := none   -- persistent queue started on non-empty storage: the restored size
   lastOp : List String := []
   prev : Snap := {}
   els : List (Nat × Int) := []
@@ -125,6 +137,17 @@ def Mon.onOp (m : Mon) (toks : List String) : Mon :=
         | _, _ => acc
       | _, acc => acc
     { m with els := go rest [] ++ m.els }
+  | ["shutdown"] => { m with stopped := true }
+  | "restore" :: rest =>
+    let rec goR : List String → List (Nat × Int) → List (Nat × Int)
+      | p :: el :: r, acc => match p.toNat?, el.toInt? with
+        | some p, some el => goR r (acc ++ [(p, el)])
+        | _, _ => acc
+      | _, acc => acc
+    let items := goR (rest.filter (fun t => !(t.startsWith "size="))) []
+    let sz := ((kvOf rest "size").bind String.toInt?).getD 0
+    { m with els := items ++ m.els, accepted := m.accepted ++ items.map (·.1), restored := some sz,
+             prev := { m.prev with size := sz, q := items.map (·.1) } }
   | ["done", id, e] =>
     match id.toNat?, e.toNat? with
     | some id, some e =>
@@ -137,7 +160,7 @@ def sumEls (els : List (Nat × Int)) (ids : List Nat) : Int :=
   ids.foldl (fun a id => a + (els.lookup id).getD 0) 0
 
 def isRefusal (wfr : Bool) (st : String) : Bool :=
-  st = "full" || st = "inv" || st = "big" || (!wfr && st = "ctx")
+  st = "full" || st = "inv" || st = "big" || st = "stopped" || (!wfr && st = "ctx")
 
 def Mon.onObs (m : Mon) (toks : List String) : Mon :=
   match toks with
@@ -176,25 +199,31 @@ def Mon.onObs (m : Mon) (toks : List String) : Mon :=
       -- size clause
       let unfinished := cur.q ++ m.inflight
       let want := sumEls m.els unfinished
-      let m := m.failIf (cur.size < 0 || cur.size > m.cap) "C02/queue/size-out-of-bounds" s!"size={cur.size} cap={m.cap}{at_}"
-      let m := m.failIf (!(cur.size < 0 || cur.size > m.cap) && !(sizeClause m.persistent m.cap cur.size want unfinished.isEmpty))
-        "C02/queue/size-accounting" s!"size={cur.size} sum-of-unfinished={want}{at_}"
+      let m := match m.restored with
+        | none =>
+          let m := m.failIf (cur.size < 0 || cur.size > m.cap) "C02/queue/size-out-of-bounds" s!"size={cur.size} cap={m.cap}{at_}"
+          m.failIf (!(cur.size < 0 || cur.size > m.cap) && !(sizeClause m.persistent m.cap cur.size want unfinished.isEmpty))
+            "C02/queue/size-accounting" s!"size={cur.size} sum-of-unfinished={want}{at_}"
+        | some r =>
+          m.failIf (!(sizeClauseRestart m.cap r cur.size (sumEls m.els m.inflight) cur.q.isEmpty unfinished.isEmpty))
+            "C02/queue/size-after-restart" s!"size={cur.size} cap={m.cap} restored={r} in-flight-sum={sumEls m.els m.inflight} queued={cur.q}{at_}"
       -- refusal exactly when size + el > cap (plus the guards)
       let m := match m.lastOp with
         | ["offer", p, el] =>
           match p.toNat?, el.toInt? with
           | some p, some el =>
             let st := (cur.ps.lookup p).getD "?"
-            let wantR := expectedRefusal m.persistent m.block m.cap m.prev.size el
+            let wantR := expectedRefusal m.persistent m.block m.stopped m.cap m.prev.size el
             let sig := if wantR == "inv" || st == "inv" then "C02/queue/invalid-size-guard"
                        else if wantR == "big" || st == "big" then "C02/queue/too-large-guard" else "C02/queue/refusal-not-exact"
-            m.failIf (!(refusalClause m.persistent m.block m.cap m.prev.size el st)) sig
+            m.failIf (!(refusalClause m.persistent m.block m.stopped m.cap m.prev.size el st)) sig
               s!"p={p} el={el} size-before={m.prev.size} cap={m.cap} got {st} want-refusal '{wantR}'{at_}"
           | _, _ => m
         | _ => m
       -- never left blocked (for space) while the queue is empty
       let blockedForSpace := cur.ps.filter (fun (p, st) => st == "B" && !(m.accepted.contains p))
-      let m := m.failIf (!(blockedClause m.persistent cur.size unfinished.isEmpty blockedForSpace.length)) "C02/queue/blocked-while-empty" s!"blocked={blockedForSpace.map (·.1)}{at_}"
+      -- (the property speaks about a RUNNING queue: after `Shutdown` a released producer is refused and nobody is promised a wake-up)
+      let m := m.failIf (!m.stopped && !(blockedClause m.persistent cur.size unfinished.isEmpty blockedForSpace.length)) "C02/queue/blocked-while-empty" s!"blocked={blockedForSpace.map (·.1)}{at_}"
       -- consumer side: nothing queued beside a parked consumer
       let parked := (cur.cs.filter (fun (_, st) => st == "B")).length
       let m := m.failIf (!(parkedClause cur.q.length parked)) "C02/queue/request-waits-beside-parked-consumer" s!"queued={cur.q} parked-consumers={parked}{at_}"
@@ -309,7 +338,7 @@ def finalsOf (evs : List SEv) : List Int := evs.filterMap (fun e => match e with
 /-- the Offer of this id may have enqueued it (not a refusal; a zero-sized memory request is never enqueued) -/
 def mayBeQueued (c : SCfg) (r : Nat × Int × String) : Bool :=
   let st := r.2.2
-  !(st == "full" || st == "inv" || st == "big" || (!c.wfr && st == "ctx")) && (c.persistent || r.2.1 != 0)
+  !(st == "full" || st == "inv" || st == "big" || st == "stopped" || (!c.wfr && st == "ctx")) && (c.persistent || r.2.1 != 0)
 
 /-- the Offer of this id certainly enqueued it -/
 def surelyQueued (c : SCfg) (r : Nat × Int × String) : Bool :=
